@@ -51,6 +51,12 @@ HOST_LISTS = {
     "local,r1,local": [(LOCAL, 9200), (R1, 9200), (LOCAL, 9200)],
     "r1,r2,r1": [(R1, 9200), (R2, 9200), (R1, 9200)],
 }
+# target hosts as users write them for an existing (externally provisioned) cluster: with scheme, credentials, names that only the cluster's network resolves
+EXTERNAL_HOST_STRINGS = {
+    "ext-https": "https://es1.cloud.example.org:9243,https://es2.cloud.example.org:9243",
+    "ext-auth": "elastic:changeme@search.internal:9200",
+    "ext-prefix": "http://gateway.internal:8080/es-prod",
+}
 
 
 class Calls:
@@ -157,7 +163,7 @@ def make_cfg(hosts, preserve):
     cfg.add(A, "provisioning", "node.name.prefix", "rally-node")
     cfg.add(A, "reporting", "datastore.type", "in-memory")
     cfg.add(A, "track", "params", {})
-    cfg.add(A, "client", "hosts", opts.TargetHosts(",".join(f"{ip}:{port}" for ip, port in hosts)))
+    cfg.add(A, "client", "hosts", opts.TargetHosts(hosts if isinstance(hosts, str) else ",".join(f"{ip}:{port}" for ip, port in hosts)))
     return cfg
 
 
@@ -194,14 +200,14 @@ def run_config(cfgspec, ch, res):
     hname, fault, extra_daemons, preserve, external = cfgspec
     s = setup()
     mech = s["mechanic"]
-    hosts = HOST_LISTS[hname]
+    hosts = HOST_LISTS[hname] if hname in HOST_LISTS else []
     groups = groups_of(hosts)
     _S["calls"] = Calls()
     _S["fail_groups"] = {fault[1]} if fault and fault[0] == "launch-fails" else set()
     _S["fail_stop"] = {fault[1]} if fault and fault[0] == "stop-fails" else set()
     # provisioning fails for the LAST node of a host that runs several nodes (the earlier ones are installed already)
     _S["fail_prepare"] = {(fault[1], groups_of(HOST_LISTS[hname])[fault[1]][-1])} if fault and fault[0] == "prepare-fails" else set()
-    cfg = make_cfg(hosts, preserve)
+    cfg = make_cfg(EXTERNAL_HOST_STRINGS.get(hname, hosts), preserve)
     CLOCK.start(now=0.0, sleep_mode="error")
     sim = actorsim.ActorSim(ch, horizon=10_000.0, max_steps=400)
     sim.untimed = True
@@ -383,6 +389,8 @@ def configs(tier):
                     out.append((hname, fault, extra, preserve, False))
     out.append(("local+r1", None, None, False, True))
     out.append(("local", None, None, False, True))
+    for hname in EXTERNAL_HOST_STRINGS:
+        out.append((hname, None, None, False, True))
     return out
 
 
